@@ -27,6 +27,7 @@ type SetCase struct {
 	Gate     string       `json:"gate,omitempty"` // task that is answered only once every catch event listens
 	NCatch   int          `json:"ncatch,omitempty"`
 	Tags     []string     `json:"tags,omitempty"`
+	Vars     map[string]any `json:"vars,omitempty"`
 	env      *Env
 	defs     *schema.Definitions
 }
@@ -48,7 +49,11 @@ func (c *SetCase) Main() {
 	ctx, cancel := context.WithCancel(context.Background())
 	defer cancel()
 	engine := bpmn.NewEngine(bpmn.WithEngineContext(ctx))
-	ps, err := engine.NewProcessSet(c.defs, bpmn.WithContext(ctx), bpmn.WithIdGenerator(&ctrGen{prefix: "id"}))
+	psOpts := []bpmn.Option{bpmn.WithContext(ctx), bpmn.WithIdGenerator(&ctrGen{prefix: "id"})}
+	if len(c.Vars) > 0 {
+		psOpts = append(psOpts, bpmn.WithVariables(c.Vars))
+	}
+	ps, err := engine.NewProcessSet(c.defs, psOpts...)
 	if err != nil {
 		L.Add("fatal", "NewProcessSet: "+err.Error(), "", 0)
 		return
@@ -76,6 +81,7 @@ func (c *SetCase) Main() {
 	}()
 	go func() {
 		var pending []pendingReq
+		nAns := map[string]int{}
 		for {
 			if len(pending) == 0 {
 				idle.Set(1)
@@ -121,8 +127,13 @@ func (c *SetCase) Main() {
 			i := cand[env.pick(len(cand))]
 			r := pending[i]
 			pending = append(pending[:i], pending[i+1:]...)
-			L.AddV("ans", r.act, map[string]any{})
-			r.tt.Do()
+			res := map[string]any{}
+			nAns[r.act]++
+			if node := findNodeIn(c.Defs, r.act); node != nil && node.Counter != "" {
+				res[node.Counter] = nAns[r.act]
+			}
+			L.AddV("ans", r.act, res)
+			r.tt.Do(bpmn.DoWithResults(res))
 			L.Add("ans-ret", r.act, "", 0)
 		}
 	}()
@@ -218,6 +229,19 @@ func genC18(d *Draw) Case {
 		c.Tags = append(c.Tags, "message-flow", "throw-burst")
 	} else if !withMsg {
 		for p := 1; p <= nexec; p++ {
+			if d.N(3) == 2 {
+				// a block-structured body (gateways, loops) instead of a plain chain
+				g := mkProc(fmt.Sprintf("P%d", p), true)
+				vars, bd := GenBody(d, defs, g, ProgOpts{Kinds: []string{"seq", "xor", "and", "loop"}, MaxDepth: 1 + d.N(2), MaxTasks: 2 + d.N(4)}, fmt.Sprintf("P%d", p))
+				if c.Vars == nil {
+					c.Vars = map[string]any{}
+				}
+				for k, v := range vars {
+					c.Vars[k] = v
+				}
+				desc = append(desc, fmt.Sprintf("P%d(%s)", p, bd))
+				continue
+			}
 			g := mkProc(fmt.Sprintf("P%d", p), true)
 			g.addNode(&Node{ID: fmt.Sprintf("P%d_Start", p), Kind: "start"})
 			cur := fmt.Sprintf("P%d_Start", p)
@@ -356,7 +380,7 @@ func checkC18(cc Case, r *simrt.Result) *Outcome {
 		case "startall":
 			for _, g := range c.Defs.Procs {
 				if g.Executable {
-					m := NewModel(g, nil)
+					m := NewModel(g, c.Vars)
 					m.StartAll()
 					models[g.ID] = m
 				}
@@ -372,7 +396,8 @@ func checkC18(cc Case, r *simrt.Result) *Outcome {
 		case "ans":
 			m := findModel(ev.A, func(m *Model) bool { return contains(m.Waiting(), ev.A) })
 			if m != nil {
-				m.Answer(ev.A, nil, nil)
+				res, _ := ev.V.(map[string]any)
+				m.Answer(ev.A, res, nil)
 				afterStep()
 			}
 		case "t:leave":
